@@ -230,7 +230,7 @@ PROPS = {
                              thorough=[('decode', []), ('validate', ['-n', 400000]), ('startup', ['-n', 4000, '-bin', '@BUILD/escalator-bin'])],
                              search=[('validate', ['-n', 40000]), ('startup', ['-n', 600, '-bin', '@BUILD/escalator-bin'])]),
                 aspects=['problems', 'honoured', 'field', 'panic', 'bad-case', 'startup'], monitors=['C16'], py_monitor=c16_safe_monitor,
-                theorems=['Esc.P.C16_sound', 'Esc.P.C16_translation_complete', 'Esc.P.C16_keys_distinct', 'Esc.P.C16_keys_partial', 'Esc.P.C16_keys_full_fails'],
+                theorems=['Esc.P.C16_sound', 'Esc.P.C16_startup_sound', 'Esc.P.C16_translation_complete', 'Esc.P.C16_keys_distinct', 'Esc.P.C16_keys_partial', 'Esc.P.C16_keys_full_fails'],
                 technique='Lean 4 theorem over definitions REGENERATED from the Go source on every run (go/ast translator of ValidateNodeGroup and of the option struct tags / documented keys) + differential correspondence of the translation with the real validator and decoder + independent monitor',
                 level_text='C16_sound: Gen.validate c -> Safe c, where Gen.validate is the conjunction of the 24 checkThat(...) conditions translated from pkg/controller/node_group.go on this run and Safe is written from the property statement; '
                            'deleting or weakening a check breaks the proof before any test runs; C16_translation_complete: no construct was left untranslated; C16_keys_*: json keys pairwise distinct, every documented example key except '
